@@ -22,7 +22,12 @@ import (
 	"time"
 )
 
-const verifDir = "/verif"
+var verifDir = func() string {
+	if d := os.Getenv("VERIF_DIR"); d != "" {
+		return d
+	}
+	return "/verif"
+}()
 
 type result struct {
 	Verdict    string         `json:"verdict"`
@@ -644,6 +649,7 @@ func aggregate(prop, tier string, seed uint64, m meta, results map[int]caseOut, 
 	}
 	sort.Ints(keys)
 	slowest := 0.0
+	sampledClass := map[string]bool{}
 	for _, i := range keys {
 		c := results[i]
 		verd[c.res.Verdict]++
@@ -664,7 +670,8 @@ func aggregate(prop, tier string, seed uint64, m meta, results map[int]caseOut, 
 			}
 			distinct[sig] = true
 		}
-		if c.res.Sample != nil && len(samples) < 4 {
+		if c.res.Sample != nil && len(samples) < 6 && !sampledClass[c.res.Class] {
+			sampledClass[c.res.Class] = true
 			samples = append(samples, map[string]any{"case": i, "verdict": c.res.Verdict, "class": c.res.Class, "sample": c.res.Sample})
 		}
 		if c.sec > slowest {
